@@ -9,7 +9,7 @@ CHECKS = {
     "C11": ("other", "schema table agreement over derive attributes (syn AST) + wire-shape symmetry of helper pairs",
             "Decides the schema-level necessary conditions of the CBOR round trip for every store: each encoded type is also decoded, every field of every encoded type has a unique index or is one of three run-time dirty flags (so no index or store is dropped or rebuilt), custom encode/decode helpers are wire-symmetric, and from_cbor_file changes nothing after decoding except two copied settings. Value-level equality is not decided.",
             "trusts minicbor's derive macros and syn; value equality of the reloaded store is not decided",
-            "DESIGN.md section 4 C11", "syn"),
+            "DESIGN.md section 4 C11", "syn+mir"),
     "C13": ("proof", "formula extraction from the syntax tree + exhaustive order-type enumeration (finite decision procedure for comparison-only formulas); finite pattern-coverage evaluation over the operator space",
             "For all pairs of ranges: each pairwise relation arm, extracted from the current source as a comparison formula, is proved equal to its interval definition on every weak ordering of the four end points (and every limit / whitespace-predicate value), the converse / symmetry / implication laws hold between the extracted formulas, negation is the exact complement in all four test functions, toggle_negate/toggle_all/with_limit change exactly one field on the whole operator space, every operator/modifier combination reaches a real arm (no unreachable!()), no unsigned subtraction can underflow, and tests on singleton sets equal the pairwise test (loops unrolled once). Sets with more than one member are decided only for pattern coverage.",
             "trusted: syn, the formula evaluator's closed vocabulary (anything outside it is reported, not skipped), the SPEC table of interval definitions written from the doc comments; the whitespace predicate is uninterpreted; overlap of zero-width selections is checked for symmetry only",
@@ -22,6 +22,10 @@ CHECKS = {
             "For every input: each panic source in the 670 functions reachable from the loader entry points and from every local impl of serde Deserialize/DeserializeSeed/Visitor and minicbor Decode is proved dead by an idiom, carries a reviewed reason, or is reported (new panic sources are violations; today's genuine ones are listed as known findings or were repaired). Every allocation in that code must be sized by a constant or a length of existing data; every loop must advance an iterator or reader; the CBOR loader must validate handles (it does not: known finding). Running time and the C01-C03 guarantee for the loaded store are not decided.",
             "trusts rustc MIR, the over-approximated call graph (class hierarchy restricted by instantiation sets, trait-bound callbacks), and rules/panic_safe.json; category reasons in that table rely on the store invariants of C01-C03, which hold for JSON/CSV-built stores only",
             "DESIGN.md section 4 C19, A1, A2", "mir"),
+    "C20": ("other", "effect analysis over the MIR call graph: inventory of interior-mutable cells, write sites, reverse reachability from every public shared-reference entry point; must-pass-through (bracket) rule with guard correlation",
+            "Decides the interference-freedom clause for every interleaving at once: threads holding only shared references can affect each other only through interior-mutable state, so the check inventories every such cell (4 today; a new one is a violation), finds every write site, and reports every public entry point callable with shared references (751 analysed) that can reach a write. The read-only API (iterators, searches, queries, parallel adaptors, transpose) reaches none - that is the guarded regression surface; the 24 serialisation entry points that do write are genuine and listed as known findings. A bracket rule proves that a temporary switch of the store-wide serialisation mode is restored on every path to a return.",
+            "trusts rustc's aliasing rules (no unsafe aliasing; the crate has one unused unsafe fn), the over-approximated call graph, and std/rayon; which interleavings are harmful among the writing entries is not decided - they are all reported",
+            "DESIGN.md section 4 C20, A1, A3, A4", "mir"),
 }
 
 NA = {
